@@ -1,5 +1,6 @@
 import PandoraModel.Properties.C16
 import PandoraModel.Properties.C16Kernels
+import PandoraModel.Properties.C16KernelsDataset
 open Pandora.C16
 #print axioms getWindow_eq_spec
 #print axioms windowSpec_inside
@@ -34,3 +35,11 @@ open Pandora.C16
 #print axioms Pandora.C16Kernels.getWindow_raises_iff
 #print axioms Pandora.C16Kernels.encWindow_spec
 #print axioms Pandora.C16Kernels.getWindow_eq_spec
+-- T15: add_mask / add_no_data / add_disparity / the tail of create_dataset_from_inputs regenerated = the model
+#print axioms Pandora.C16KernelsDataset.noDataPixels_eq
+#print axioms Pandora.C16KernelsDataset.wrap_loses_the_mask
+#print axioms Pandora.C16KernelsDataset.addNoData_generated
+#print axioms Pandora.C16KernelsDataset.addMask_generated
+#print axioms Pandora.C16KernelsDataset.addDisparity_generated
+#print axioms Pandora.C16KernelsDataset.generatedDS_eq
+#print axioms Pandora.C16KernelsDataset.generated_read_spec
